@@ -429,7 +429,10 @@ where
             cmp::Ordering::Equal => {}
             other => return other,
         }
-        match self.target.name_cmp(&other.target) {
+        // SVCB and HTTPS are not among the types whose embedded names are
+        // lowercased for the canonical form, so the target is compared as
+        // it appears on the wire.
+        match self.target.composed_cmp(&other.target) {
             cmp::Ordering::Equal => {}
             other => return other,
         }
